@@ -58,7 +58,7 @@ const tgenSig = "s string, t string, b bool, c bool, n int, items []string, u te
 func (g *tgen) note(k string) { g.counts[k]++ }
 
 var tgWords = []string{"hello", "world", "a", "b c", "x&amp;y", "&lt;tag&gt;", "&nbsp;", "é", "日本", "1 &lt; 2", "it's", "“q”", "&#34;", "€5"}
-var tgStrExprs = []string{"s", "t", `"lit"`, `"a\"b"`, "`raw`", `fmt.Sprintf("%s-%d", s, n)`, "strErr(t)", "p.Name", `s + t`, "items[0]", `fmt.Sprint(n)`, "s /* c */"}
+var tgStrExprs = []string{"s // c\n", "s", "t", `"lit"`, `"a\"b"`, "`raw`", `fmt.Sprintf("%s-%d", s, n)`, "strErr(t)", "p.Name", `s + t`, "items[0]", `fmt.Sprint(n)`, "s /* c */"}
 var tgBoolExprs = []string{"b", "c", "!b", "b && c", "n > 1", "p.On", `s == "x"`, "len(items) > 0", "true", "false"}
 var tgBlock = []string{"div", "p", "section", "ul", "article", "main", "h1", "blockquote", "form", "table"}
 var tgInline = []string{"span", "a", "b", "em", "strong", "button", "label", "i", "code", "small"}
@@ -176,6 +176,12 @@ func (g *tgen) children(ind int, n int) (string, bool) {
 		nodes = append(nodes, s)
 		multiline = multiline || ml
 	}
+	if multiline && g.r.chance(1, 4) {
+		// glued: a node that spans lines follows its sibling on the same line, with or without a blank between them
+		g.note("children-glued")
+		sep := g.r.pick([]string{"", "", " "})
+		return strings.Join(nodes, sep), true
+	}
 	if !multiline && g.r.chance(1, 2) {
 		g.note("children-singleline")
 		sep := g.r.pick([]string{"", " ", " ", "  "})
@@ -232,6 +238,16 @@ func (g *tgen) body(ind int, n int) string {
 	return strings.Join(lines, "\n")
 }
 
+// closer returns what separates the end of a control-flow body from its closing brace: normally a line break,
+// sometimes nothing (the brace directly follows the last child).
+func (g *tgen) closer(ind int) string {
+	if g.r.chance(1, 10) {
+		g.note("brace-glued")
+		return ""
+	}
+	return "\n" + g.indent(ind)
+}
+
 // node returns the text of one node and whether it spans lines (or must stand on its own line).
 func (g *tgen) node(ind int) (string, bool) {
 	if g.depth <= 0 {
@@ -250,14 +266,14 @@ func (g *tgen) node(ind int) (string, bool) {
 	case k < 17:
 		g.note("if")
 		g.depth--
-		s := fmt.Sprintf("if %s {\n%s\n%s}", g.r.pick(tgBoolExprs), g.body(ind+1, 1+g.r.intn(2)), g.indent(ind))
+		s := fmt.Sprintf("if %s {\n%s%s}", g.r.pick(tgBoolExprs), g.body(ind+1, 1+g.r.intn(2)), g.closer(ind))
 		if g.r.chance(1, 3) {
 			g.note("else-if")
 			s += fmt.Sprintf(" else if %s {\n%s\n%s}", g.r.pick(tgBoolExprs), g.body(ind+1, 1), g.indent(ind))
 		}
 		if g.r.chance(1, 2) {
 			g.note("else")
-			s += fmt.Sprintf(" else {\n%s\n%s}", g.body(ind+1, 1+g.r.intn(2)), g.indent(ind))
+			s += fmt.Sprintf(" else {\n%s%s}", g.body(ind+1, 1+g.r.intn(2)), g.closer(ind))
 		}
 		g.depth++
 		return s, true
@@ -270,7 +286,7 @@ func (g *tgen) node(ind int) (string, bool) {
 			inner += "\n" + g.indent(ind+1) + "<li>{ item }</li>"
 		}
 		g.depth++
-		return fmt.Sprintf("%s {\n%s\n%s}", hdr, inner, g.indent(ind)), true
+		return fmt.Sprintf("%s {\n%s%s}", hdr, inner, g.closer(ind)), true
 	case k < 21:
 		g.note("switch")
 		g.depth--
@@ -314,7 +330,7 @@ func (g *tgen) node(ind int) (string, bool) {
 		return g.strExpr(), false
 	case k == 25:
 		g.note("gocode")
-		return g.r.pick([]string{"{{ x := s + t }}", "{{ _ = n }}", "{{\n" + g.indent(ind+1) + "y := len(items)\n" + g.indent(ind+1) + "_ = y\n" + g.indent(ind) + "}}"}), true
+		return g.r.pick([]string{"{{ x := s + t }}", "{{ _ = n }}", "{{ if b { _ = n } }}", "{{ x := 1 // c\n" + g.indent(ind) + "}}", "{{ for i := 0; i < n; i++ { _ = i } }}", "{{\n" + g.indent(ind+1) + "y := len(items)\n" + g.indent(ind+1) + "_ = y\n" + g.indent(ind) + "}}"}), true
 	case k == 26:
 		g.note("htmlcomment")
 		return g.r.pick([]string{"<!-- comment -->", "<!--c-->", "<!-- multi\n" + g.indent(ind) + "line -->"}), true
